@@ -26,11 +26,13 @@ class Name:
         return self.s
 
 
-def _records(c, n, dots):
+def _records(c, n, dots, names="distinct"):
+    """names: 'distinct' hosts; 'same' = one host listed n times (e.g. two SRV records for one DC); 'case' = the same host spelled with different case"""
     recs = []
     for i in range(n):
         dot = (dots >> i) & 1
-        recs.append(Rec(Name(f"dc{i}.example.com" + ("." if dot else "")), c.int(f"port{i}", 0, 65535), c.int(f"w{i}", 0, 65535), c.int(f"p{i}", 0, 65535)))
+        host = {"distinct": f"dc{i}.example.com", "same": "dc0.example.com", "case": ("dc0.example.com", "DC0.example.com", "Dc0.Example.Com", "dC0.EXAMPLE.com", "dc0.example.COM")[i]}[names]
+        recs.append(Rec(Name(host + ("." if dot else "")), c.int(f"port{i}", 0, 65535), c.int(f"w{i}", 0, 65535), c.int(f"p{i}", 0, 65535)))
     return recs
 
 
@@ -46,15 +48,19 @@ def _params(tier):
     out = []
     for n in ([1, 2, 3, 4] if tier == "quick" else [1, 2, 3, 4, 5]):
         for dots in sorted({0, (1 << n) - 1, 0b0101010 & ((1 << n) - 1), 0b1010101 & ((1 << n) - 1)}):
-            out.append(dict(n=n, dots=dots))
+            out.append(dict(n=n, dots=dots, names="distinct"))
+    for n in ([2, 3] if tier == "quick" else [2, 3, 4]):
+        for names in ("same", "case"):
+            for dots in sorted({0, 0b0101010 & ((1 << n) - 1), 0b1010101 & ((1 << n) - 1)}):
+                out.append(dict(n=n, dots=dots, names=names))
     return out
 
 
 @harness(P, params=_params, bounds="1..4 (quick) / 1..5 (thorough) SRV records in any order with symbolic priority, weight, port in [0,65535]; trailing-dot patterns "
-         "{none, all, alternating, inverse alternating}", outside="more than 5 records; other dot patterns (the dot is stripped per record before sorting)",
+         "{none, all, alternating, inverse alternating}; hosts all distinct, or one host listed 2..3 (thorough 4) times with the same / with differing spelling (case, trailing dot)", outside="more than 5 records; other dot patterns (the dot is stripped per record before sorting)",
          must_reach=("pick: lowest priority", "pick: one input record, port/weight/priority unchanged, trailing dot stripped"))
-def pick(c, n, dots):
-    recs = _records(c, n, dots)
+def pick(c, n, dots, names):
+    recs = _records(c, n, dots, names)
     r = c.call(_dns._get_highest_answer, recs)
     _oracle(c, recs, r, "pick")
     return (r.target, r.port, r.weight, r.priority)
@@ -84,3 +90,61 @@ def query(c, domain):
     _oracle(c, recs, r1, "lookup")
     c.check(all_of([r1.target == r2.target, r1.port == r2.port, r1.weight == r2.weight, r1.priority == r2.priority]), "sync == async")
     return (r1.target, r1.port, r1.weight, r1.priority)
+
+
+@harness(P, per_job=True, params=[dict(op=o, flavour=f, domain=d) for o in ("unprotect", "protect") for f in ("sync", "async")
+                                  for d in (("d.test",) if o == "unprotect" else ("child.corp.test", None))],
+         max_steps=3000000,
+         bounds="use of the lookup result by the four public functions when no server is given and the cache does not cover the request: unprotect of a blob whose key identifier "
+         "names domain 'd.test' and a different forest 'f.test'; protect with domain_name 'child.corp.test' / None; lookup and GetKey replaced by recording stubs (the GetKey stub is the "
+         "conforming DC of C10); symbolic plaintext and root key", outside="the conversation with the DC itself (C17)",
+         must_reach=("use site: looked up the blob's / the caller's domain once", "use site: GetKey sent to the looked-up target"))
+def use_site(c, op, flavour, domain):
+    import dpapi_ng
+    from dpapi_ng import _blob, _client
+
+    from . import e2e
+    from .c10 import DC, _blob_at
+    from .world import seq_eq
+
+    lo, _ = e2e.window(361, 9, 6, -5, -5)
+    looked, asked, holder = [], [], {}
+    port, weight, prio = c.int("port", 0, 65535), c.int("weight", 0, 65535), c.int("prio", 0, 65535)
+
+    def lookup(name=None):
+        looked.append(name)
+        return _dns.SrvRecord("dc7.child.corp.test", port, weight, prio)
+
+    async def alookup(name=None):
+        return lookup(name)
+
+    def get_key(server, *a, **k):
+        asked.append(server)
+        return holder["dc"].get_key(server, *a, **k)
+
+    async def aget_key(server, *a, **k):
+        return get_key(server, *a, **k)
+
+    w = e2e.new_world(c, lo, lo, extra=[(_dns.lookup_dc, lookup), (_dns.async_lookup_dc, alookup), (_client._sync_get_key, get_key), (_client._async_get_key, aget_key)])
+    root = c.bytes("root", 64)
+    holder["dc"] = DC(c, w, "SHA256", root, (361, 9, 6))
+    pt = c.bytes("pt", 4)
+    if op == "unprotect":
+        blob = _blob_at(c, w, "SHA256", root, e2e.SIDS[0], (361, 9, 4), pt)
+        y = c.call(_blob.DPAPINGBlob.unpack, blob)
+        c.check(y.key_identifier.domain_name == "d.test" and y.key_identifier.forest_name == "f.test", "use site: the blob names a domain and a different forest")
+        if flavour == "sync":
+            out = c.call(dpapi_ng.ncrypt_unprotect_secret, blob)
+        else:
+            out = c.call_async(dpapi_ng.async_ncrypt_unprotect_secret, blob)
+        c.check(seq_eq(out, pt), "use site: result")
+        want = "d.test"
+    else:
+        if flavour == "sync":
+            out = c.call(dpapi_ng.ncrypt_protect_secret, pt, e2e.SIDS[0], domain_name=domain)
+        else:
+            out = c.call_async(dpapi_ng.async_ncrypt_protect_secret, pt, e2e.SIDS[0], domain_name=domain)
+        want = domain
+    c.check(looked == [want], "use site: looked up the blob's / the caller's domain once")
+    c.check(asked == ["dc7.child.corp.test"], "use site: GetKey sent to the looked-up target")
+    return True
